@@ -607,8 +607,10 @@ mcache_bkt(MCACHE *mp /* IN: MCACHE cookie */)
      */
     for (bp = mp->lqh.cqh_first; bp != (void *)&mp->lqh; bp = bp->q.cqe_next)
         if (!(bp->flags & MCACHE_PINNED)) { /* Flush if dirty. */
-            if (bp->flags & MCACHE_DIRTY && mcache_write(mp, bp) == RET_ERROR)
+            if (bp->flags & MCACHE_DIRTY && mcache_write(mp, bp) == RET_ERROR) {
+                bp = NULL; /* the page stays in the cache and on its lists: it is not ours to free */
                 HE_REPORT_GOTO("unable to flush a dirty page", FAIL);
+            }
 #ifdef STATISTICS
             ++mp->pageflush;
 #endif
